@@ -334,6 +334,49 @@ func envVariant(rng *rand.Rand, g *GenSpec, w *World) {
 func genOp(g *GenSpec) Op { return Op{Kind: "gen", Gen: g} }
 
 // C09Cases builds the single-gen cases for a world: systematic prefix, then seeded search.
+// overlapVariants: pattern lists that select the same packages through overlapping or
+// differently spelled patterns (./x and its import path; ./x/... and ./x). Used only when the
+// reference run succeeds: a pattern is a CLI option and may be echoed by a loader diagnostic.
+func overlapVariants(rng *rand.Rand, w *World) [][]string {
+	var out [][]string
+	base := w.Patterns
+	if len(base) == 0 {
+		return nil
+	}
+	for v := 0; v < 3; v++ {
+		p := append([]string(nil), base...)
+		i := rng.IntN(len(p))
+		x := p[i]
+		var extra string
+		switch {
+		case strings.HasPrefix(x, "./") && !strings.Contains(x, "...") && v%2 == 0:
+			extra = w.Module + "/" + strings.TrimPrefix(x, "./")
+		case strings.HasPrefix(x, w.Module+"/") && !strings.Contains(x, "..."):
+			extra = "./" + strings.TrimPrefix(x, w.Module+"/")
+		case strings.HasPrefix(x, "./") && !strings.Contains(x, "..."):
+			// a subtree pattern that contains x; other packages below it would change the
+			// selection, so only use it when no other selected or input package lives there
+			sub := strings.TrimPrefix(x, "./") + "/"
+			alone := true
+			for f := range w.Files {
+				if strings.HasPrefix(f, sub) && strings.Count(strings.TrimPrefix(f, sub), "/") > 0 {
+					alone = false
+				}
+			}
+			if !alone {
+				continue
+			}
+			extra = x + "/..."
+		default:
+			continue
+		}
+		at := rng.IntN(len(p) + 1)
+		p = append(p[:at], append([]string{extra}, p[at:]...)...)
+		out = append(out, p)
+	}
+	return out
+}
+
 func C09Cases(c *Ctx, w *World, rng *rand.Rand, reached []int, nRandom int) []*History {
 	var hs []*History
 	add := func(g *GenSpec, loc int) {
@@ -361,6 +404,11 @@ func C09Cases(c *Ctx, w *World, rng *rand.Rand, reached []int, nRandom int) []*H
 			add(&GenSpec{Plan: withGo(planIdentity(), "deferred", rng.Uint64())}, 0)
 		}
 		add(&GenSpec{Plan: withGo(planAll("perm", 0, rng.Uint64()), "deferred", 0)}, 0)
+	}
+	if c.refOK(w) {
+		for _, pv := range overlapVariants(rng, w) {
+			add(&GenSpec{Plan: planIdentity(), Patterns: pv}, 0)
+		}
 	}
 	// environment-only variants in identity order (isolates N3/N4 from N1)
 	for i := 0; i < 3; i++ {
